@@ -94,6 +94,30 @@ def pair_shape(first, second, first_mode):
     return sh
 
 
+def zero_length_order_shape(rule, kinds):
+    """order-based rules of a plain worker with zero-length tasks: the worker's own no-overlap rule makes the busy
+    intervals chainable, so the rule has an undisputed meaning there too - some order in which each interval ends no
+    later than the next one starts, every consecutive gap in the rule's relation"""
+    from checks import c05
+    name = f"zero_length_tasks/{rule}/{'+'.join(kinds)}"
+    mk, rel = c05.TIE_RULES[rule]
+
+    def build(P):
+        pb, hv = new_problem(P, False)
+        tis = _tasks(P, kinds, tuple([False] * len(kinds)))
+        w = ps.Worker(name="W")
+        for t in tis:
+            t.obj.add_required_resource(w)
+        mk(P, w)
+        return Ctx(problem=pb, tis=tis, w=w)
+
+    def obligations(ctx):
+        ivs = [ctx.w._busy_intervals[t.obj] for t in ctx.tis]
+        return [Ob(f"{PROP}/{name}/consecutive_gaps_in_the_relation", "sound", clause=c05.chain(ivs, rel(ctx.P)))]
+
+    return Shape(name, build, obligations)
+
+
 def history_shape(ename, variant, how):
     """assignments and declarations interleaved on one resource: task A is assigned, a first constraint is declared,
     task B is assigned, a second constraint of the same class is declared (other parameters), task C is assigned.
@@ -192,6 +216,9 @@ def shapes(tier):
     from checks import c03 as _c03
     out = _c03.monotone_shapes(PROP, tier, resource_rules=True) + _c03.default_shapes(PROP)
     thorough = tier == "thorough"
+    for rule in ("ResourceNonDelay", "ResourceTasksDistance_exact", "ResourceTasksDistance_min", "ResourceTasksDistance_max"):
+        for kinds in [("zero", "fixed"), ("fixed", "zero", "var")] + ([("zero", "zero", "fixed"), ("var", "var")] if thorough else []):
+            out.append(zero_length_order_shape(rule, kinds))
     for ename in ("ResourceUnavailable", "WorkLoad", "ResourcePeriodicallyUnavailable", "ResourceInterrupted"):
         for how in ("worker", "cumulative"):
             for variant in (RELEMENTS[ename].variants[:1] if not thorough else RELEMENTS[ename].variants[:3]):
